@@ -15,7 +15,7 @@ def main():
     for p in problems:
         print("translation problem:", p)
     man = json.loads((common.VERIF / "MANIFEST.json").read_text())
-    targets = ["N2k.Driver.Core"] + [f"N2k.Props.{c['property_id']}" for c in man["checks"]]
+    targets = common.DRIVER_TARGETS + [f"N2k.Props.{c['property_id']}" for c in man["checks"]]
     ok, log = common.lake_build(targets, timeout=3400)
     print(log[-3000:])
     # a failing build here is not fatal for setup: each check rebuilds and reports on its own
